@@ -88,6 +88,16 @@ class Effects:
                         bind['this'] = ('temp', [])
                     calls.append((n['id'], c['usr'], bind))
                     continue
+                mk = self.prog.makes(f, n) if k == 'CallExpr' else None
+                if mk and mk.get('usr') in self.prog.funcs:
+                    # std::make_shared<T>(args): the effects of T's constructor on its arguments
+                    bind = {'this': ('temp', [])}
+                    tf = self.prog.funcs[mk['usr']]
+                    for i, a in enumerate(n.get('args', [])):
+                        if i < len(tf.params) and (tf.params[i]['type'].endswith('&') or tf.params[i]['type'].endswith('*')):
+                            bind['param:%d' % i] = root_of(f, a)
+                    calls.append((n['id'], mk['usr'], bind))
+                    continue
                 # std / libc callee
                 name = c['name']
                 cq = c.get('classq', '')
